@@ -302,10 +302,13 @@ impl Pattern {
      * to verify that there is a match.
      */
     fn alternate_match(pattern: &str, pkg: &str) -> bool {
-        for (i, _) in
-            pattern.match_indices('{').collect::<Vec<_>>().iter().rev()
-        {
-            let (first, rest) = pattern.split_at(*i);
+        /*
+         * Only the right-most opening brace needs to be expanded here: it is
+         * always an innermost group, so the first closing brace after it is
+         * its partner, and the recursive call expands whatever remains.
+         */
+        if let Some(i) = pattern.rfind('{') {
+            let (first, rest) = pattern.split_at(i);
             /* This shouldn't fail as new() already verified, but... */
             let Some(n) = rest.find('}') else {
                 return false;
